@@ -87,15 +87,19 @@ type zzGate struct {
 }
 
 func (g *zzGate) Select(r *http.Request) *UpstreamHost {
+	// counted from before the availability check until the request is being forwarded (or was refused)
+	g.mu.Lock()
+	g.pending++
+	if g.pending >= 2 {
+		// two requests are between "checking availability" and "counted and forwarded" at the same
+		// time: the history class of the recorded known finding (check-then-act on max_conns)
+		verifrt.Tag("two-requests-between-select-and-forward")
+	}
+	g.mu.Unlock()
 	h := g.Upstream.Select(r)
-	if h != nil {
+	if h == nil {
 		g.mu.Lock()
-		g.pending++
-		if g.pending >= 2 {
-			// two requests are between "backend chosen" and "counted and forwarded" at the same time:
-			// the history class of the recorded known finding (check-then-act on max_conns)
-			verifrt.Tag("two-requests-between-select-and-forward")
-		}
+		g.pending--
 		g.mu.Unlock()
 	}
 	if !g.enabled {
